@@ -1,6 +1,24 @@
 """Translator slice: Python AST of selected shapepy functions -> Lean data in lean/ShapeVerif/Gen/*.lean.
-Regenerated on every run; files are rewritten only when their content changes (keeps lake's no-op fast)."""
+
+Regenerated on every run; files are rewritten only when their content changes (keeps lake's no-op fast).
+What is translated (DESIGN.md §5a):
+  * BaseShape.__neg__/__add__/__mul__/__sub__/__xor__                         -> Gen.baseMethods : Methods
+  * EmptyShape / WholeShape .__or__/__and__/__sub__/__invert__ (+ inherited)   -> Gen.emptyOps / Gen.wholeOps
+  * DefinedShape.__or__/__and__ (isinstance / `in` short-cut chains)           -> Gen.definedOr / Gen.definedAnd : Chain
+  * SimpleShape._contains_point (comparison table on the winding value)        -> Gen.simpleTable
+  * Connected/Disjoint._contains_point (all / any loops)                       -> Gen.connectedQuant / Gen.disjointQuant
+  * plot.patch_segment (degree -> code, count, first index)                    -> Gen.patchTable
+  * tolerance literals with their call sites                                   -> Gen.consts
+A construct outside the grammar raises Unsupported(file:line); the Gen file is then written with the
+definition missing, so every theorem about it fails to build ("not re-checked") and the decision falls to
+the correspondence check.
+"""
 import ast, os
+from fractions import Fraction
+
+
+class Unsupported(Exception):
+    pass
 
 
 def write_if_changed(path, text):
@@ -11,5 +29,382 @@ def write_if_changed(path, text):
     return True
 
 
+def find_class(tree, name):
+    for n in tree.body:
+        if isinstance(n, ast.ClassDef) and n.name == name:
+            return n
+    raise Unsupported(f"class {name} not found")
+
+
+def find_func(node, name):
+    for n in node.body:
+        if isinstance(n, ast.FunctionDef) and n.name == name:
+            return n
+    return None
+
+
+def body_wo_doc(fn):
+    body = list(fn.body)
+    if body and isinstance(body[0], ast.Expr) and isinstance(getattr(body[0], "value", None), ast.Constant) and isinstance(body[0].value.value, str):
+        body = body[1:]
+    return [s for s in body if not isinstance(s, ast.Assert)]
+
+
+def where(node, fname):
+    return f"{fname}:{getattr(node, 'lineno', '?')}"
+
+
+# ------------------------------------------------------------------ Term expressions
+def term(e, names, fname):
+    """names: python variable name -> Lean Term constructor ('self'/'other')"""
+    if isinstance(e, ast.Name):
+        if e.id in names:
+            return f"Term.{names[e.id]}"
+        raise Unsupported(f"unknown name {e.id} at {where(e, fname)}")
+    if isinstance(e, ast.UnaryOp):
+        if isinstance(e.op, ast.Invert):
+            return f"(Term.inv {term(e.operand, names, fname)})"
+        if isinstance(e.op, ast.USub):
+            return f"(Term.neg {term(e.operand, names, fname)})"
+    if isinstance(e, ast.BinOp):
+        ops = {ast.BitOr: "or", ast.BitAnd: "and", ast.Sub: "sub", ast.BitXor: "xor", ast.Add: "add", ast.Mult: "mul"}
+        for k, v in ops.items():
+            if isinstance(e.op, k):
+                return f"(Term.{v} {term(e.left, names, fname)} {term(e.right, names, fname)})"
+    if isinstance(e, ast.Call) and isinstance(e.func, ast.Name):
+        if e.func.id in ("copy", "deepcopy") and len(e.args) == 1:
+            return f"(Term.copy {term(e.args[0], names, fname)})"
+        if e.func.id == "WholeShape" and not e.args:
+            return "Term.whole"
+        if e.func.id == "EmptyShape" and not e.args:
+            return "Term.empty"
+    raise Unsupported(f"unsupported expression {ast.dump(e)[:80]} at {where(e, fname)}")
+
+
+def method_names(fn):
+    args = [a.arg for a in fn.args.args]
+    names = {args[0]: "self"}
+    if len(args) > 1:
+        names[args[1]] = "other"
+    return names
+
+
+def simple_method(cls, name, fname):
+    """a method whose body is `return <expr>`"""
+    fn = find_func(cls, name)
+    if fn is None:
+        return None
+    body = body_wo_doc(fn)
+    if len(body) == 1 and isinstance(body[0], ast.Return):
+        return term(body[0].value, method_names(fn), fname)
+    raise Unsupported(f"{cls.name}.{name} is not a single return at {where(fn, fname)}")
+
+
+def guard(test, names, fname):
+    if isinstance(test, ast.Call) and isinstance(test.func, ast.Name) and test.func.id == "isinstance" and len(test.args) == 2:
+        obj, cls = test.args
+        if isinstance(cls, ast.Name) and cls.id in ("WholeShape", "EmptyShape"):
+            return f"(Guard.is{cls.id[:-5]} {term(obj, names, fname)})"
+    if isinstance(test, ast.Compare) and len(test.ops) == 1 and isinstance(test.ops[0], ast.In):
+        return f"(Guard.subset {term(test.left, names, fname)} {term(test.comparators[0], names, fname)})"
+    raise Unsupported(f"unsupported guard {ast.dump(test)[:80]} at {where(test, fname)}")
+
+
+def chain(cls, name, fname):
+    fn = find_func(cls, name)
+    if fn is None:
+        raise Unsupported(f"{cls.name}.{name} not found")
+    names = method_names(fn)
+    body = body_wo_doc(fn)
+    guards = []
+    i = 0
+    while i < len(body) and isinstance(body[i], ast.If):
+        st = body[i]
+        if st.orelse or len(st.body) != 1 or not isinstance(st.body[0], ast.Return):
+            raise Unsupported(f"unsupported if at {where(st, fname)}")
+        guards.append(f"({guard(st.test, names, fname)}, {term(st.body[0].value, names, fname)})")
+        i += 1
+    rest = body[i:]
+    # new_jordans = FollowPath.X(self, other); if len(new_jordans) == 0: return T; return ShapeFromJordans(new_jordans)
+    if len(rest) != 3 or not isinstance(rest[0], ast.Assign) or not isinstance(rest[1], ast.If) or not isinstance(rest[2], ast.Return):
+        raise Unsupported(f"unsupported tail of {cls.name}.{name} at {where(fn, fname)}")
+    call = rest[0].value
+    if not (isinstance(call, ast.Call) and isinstance(call.func, ast.Attribute) and isinstance(call.func.value, ast.Name)
+            and call.func.value.id == "FollowPath" and [getattr(a, "id", None) for a in call.args] == list(names)):
+        raise Unsupported(f"unsupported recombination call at {where(rest[0], fname)}")
+    var = rest[0].targets[0].id
+    t = rest[1].test
+    ok_test = (isinstance(t, ast.Compare) and isinstance(t.left, ast.Call) and getattr(t.left.func, "id", None) == "len"
+               and getattr(t.left.args[0], "id", None) == var and isinstance(t.ops[0], ast.Eq)
+               and isinstance(t.comparators[0], ast.Constant) and t.comparators[0].value == 0)
+    if not ok_test or len(rest[1].body) != 1 or not isinstance(rest[1].body[0], ast.Return):
+        raise Unsupported(f"unsupported empty-result test at {where(rest[1], fname)}")
+    on_empty = term(rest[1].body[0].value, names, fname)
+    r = rest[2].value
+    if not (isinstance(r, ast.Call) and getattr(r.func, "id", None) == "ShapeFromJordans" and getattr(r.args[0], "id", None) == var):
+        raise Unsupported(f"unsupported final return at {where(rest[2], fname)}")
+    return "{ guards := [" + ", ".join(guards) + f'], recombine := "{call.func.attr}", onEmpty := {on_empty} }}'
+
+
+# ------------------------------------------------------------------ comparison table of SimpleShape._contains_point
+def cmp_expr(e, wname, fname):
+    """comparison of the winding value against a number, on doubled integers"""
+    if isinstance(e, ast.Compare) and len(e.ops) == 1 and isinstance(e.left, ast.Name) and e.left.id == wname:
+        c = e.comparators[0]
+        if isinstance(c, ast.UnaryOp) and isinstance(c.op, ast.USub) and isinstance(c.operand, ast.Constant):
+            val = -Fraction(str(c.operand.value))
+        elif isinstance(c, ast.Constant):
+            val = Fraction(str(c.value))
+        else:
+            raise Unsupported(f"unsupported comparand at {where(e, fname)}")
+        v2 = val * 2
+        if v2.denominator != 1:
+            raise Unsupported(f"winding compared with a non half-integer at {where(e, fname)}")
+        ops = {ast.Gt: ">", ast.GtE: "≥", ast.Lt: "<", ast.LtE: "≤", ast.Eq: "=", ast.NotEq: "≠"}
+        for k, sym in ops.items():
+            if isinstance(e.ops[0], k):
+                return f"decide (w2 {sym} ({int(v2)} : Int))"
+    raise Unsupported(f"unsupported comparison {ast.dump(e)[:80]} at {where(e, fname)}")
+
+
+def table_expr(e, wname, fname):
+    if isinstance(e, ast.IfExp):
+        if not (isinstance(e.test, ast.Name) and e.test.id == "boundary"):
+            raise Unsupported(f"unsupported conditional at {where(e, fname)}")
+        return f"(if boundary then {table_expr(e.body, wname, fname)} else {table_expr(e.orelse, wname, fname)})"
+    return cmp_expr(e, wname, fname)
+
+
+def simple_table(cls, fname):
+    fn = find_func(cls, "_contains_point")
+    body = body_wo_doc(fn)
+    # jordan = ...; wind = IntegrateJordan.winding_number(...); if float(jordan) > 0: return A; return B
+    assigns = [s for s in body if isinstance(s, ast.Assign)]
+    wname = None
+    for s in assigns:
+        v = s.value
+        if isinstance(v, ast.Call) and isinstance(v.func, ast.Attribute) and v.func.attr == "winding_number":
+            wname = s.targets[0].id
+    rest = [s for s in body if not isinstance(s, ast.Assign)]
+    if wname is None or len(rest) != 2 or not isinstance(rest[0], ast.If) or not isinstance(rest[1], ast.Return):
+        raise Unsupported(f"unsupported shape of SimpleShape._contains_point at {where(fn, fname)}")
+    t = rest[0].test
+    ok = (isinstance(t, ast.Compare) and isinstance(t.left, ast.Call) and getattr(t.left.func, "id", None) == "float"
+          and isinstance(t.ops[0], ast.Gt) and isinstance(t.comparators[0], ast.Constant) and t.comparators[0].value == 0)
+    if not ok or len(rest[0].body) != 1 or not isinstance(rest[0].body[0], ast.Return) or rest[0].orelse:
+        raise Unsupported(f"unsupported orientation test at {where(rest[0], fname)}")
+    pos = table_expr(rest[0].body[0].value, wname, fname)
+    neg = table_expr(rest[1].value, wname, fname)
+    return f"if ccw then {pos} else {neg}"
+
+
+def quant_loop(cls, fname):
+    """for sub in self.subshapes: if [not] sub.contains_point(..): return C ; return D  -> Quant"""
+    fn = find_func(cls, "_contains_point")
+    body = body_wo_doc(fn)
+    if len(body) != 2 or not isinstance(body[0], ast.For) or not isinstance(body[1], ast.Return):
+        raise Unsupported(f"unsupported loop in {cls.name}._contains_point at {where(fn, fname)}")
+    loop = body[0]
+    it = loop.iter
+    if not (isinstance(it, ast.Attribute) and it.attr == "subshapes"):
+        raise Unsupported(f"loop does not range over subshapes at {where(loop, fname)}")
+    if len(loop.body) != 1 or not isinstance(loop.body[0], ast.If) or loop.body[0].orelse:
+        raise Unsupported(f"unsupported loop body at {where(loop, fname)}")
+    iff = loop.body[0]
+    test, negated = iff.test, False
+    if isinstance(test, ast.UnaryOp) and isinstance(test.op, ast.Not):
+        test, negated = test.operand, True
+    okcall = (isinstance(test, ast.Call) and isinstance(test.func, ast.Attribute) and test.func.attr == "contains_point"
+              and getattr(test.func.value, "id", None) == loop.target.id
+              and [getattr(a, "id", None) for a in test.args] == ["point", "boundary"])
+    if not okcall or len(iff.body) != 1 or not isinstance(iff.body[0], ast.Return):
+        raise Unsupported(f"unsupported membership test at {where(iff, fname)}")
+    early, final = iff.body[0].value, body[1].value
+    if not (isinstance(early, ast.Constant) and isinstance(final, ast.Constant)):
+        raise Unsupported(f"non-constant returns at {where(iff, fname)}")
+    if negated and early.value is False and final.value is True:
+        return "Quant.all"
+    if (not negated) and early.value is True and final.value is False:
+        return "Quant.any"
+    raise Unsupported(f"loop is neither all nor any at {where(loop, fname)}")
+
+
+# ------------------------------------------------------------------ plot.patch_segment
+def patch_table(tree, fname):
+    fn = find_func(tree, "patch_segment")
+    if fn is None:
+        raise Unsupported("plot.patch_segment not found")
+    rows = []
+    node = None
+    for st in fn.body:
+        if isinstance(st, ast.If):
+            node = st
+    while node is not None:
+        t = node.test
+        if not (isinstance(t, ast.Compare) and isinstance(t.left, ast.Attribute) and t.left.attr == "degree"
+                and isinstance(t.ops[0], ast.Eq) and isinstance(t.comparators[0], ast.Constant)):
+            raise Unsupported(f"unsupported degree test at {where(node, fname)}")
+        deg = t.comparators[0].value
+        first, code, count = None, None, None
+        for st in node.body:
+            # vertices.append(segment.ctrlpoints[1]) | vertices += list(segment.ctrlpoints[1:])
+            if isinstance(st, ast.Expr) and isinstance(st.value, ast.Call) and getattr(st.value.func, "attr", None) == "append":
+                tgt = st.value.func.value.id
+                arg = st.value.args[0]
+                if tgt == "vertices":
+                    first = arg.slice.value
+                    nverts = 1
+                else:
+                    code, count = arg.attr, 1
+            elif isinstance(st, ast.AugAssign) and isinstance(st.op, ast.Add):
+                tgt = st.target.id
+                v = st.value
+                if tgt == "vertices":
+                    sl = v.args[0].slice if isinstance(v, ast.Call) else v.slice
+                    if not (isinstance(sl, ast.Slice) and sl.upper is None and sl.step is None):
+                        raise Unsupported(f"unsupported slice at {where(st, fname)}")
+                    first = sl.lower.value
+                    nverts = None
+                else:
+                    if isinstance(v, ast.BinOp) and isinstance(v.op, ast.Mult):
+                        code, count = v.left.elts[0].attr, v.right.value
+                    elif isinstance(v, ast.List):
+                        code, count = v.elts[0].attr, len(v.elts)
+                    else:
+                        raise Unsupported(f"unsupported commands at {where(st, fname)}")
+            else:
+                raise Unsupported(f"unsupported statement at {where(st, fname)}")
+        nv = nverts if nverts is not None else f"(deg + 1 - {first})"
+        rows.append((deg, first, code, count, nverts))
+        nxt = node.orelse
+        node = nxt[0] if (len(nxt) == 1 and isinstance(nxt[0], ast.If)) else None
+    lines = []
+    for deg, first, code, count, nverts in rows:
+        nv = nverts if nverts is not None else deg + 1 - first
+        lines.append(f"  | {deg} => some ({first}, PCode.{code.lower()}, {count}, {nv})")
+    return "\n".join(lines) + "\n  | _ => none"
+
+
+# ------------------------------------------------------------------ numeric literals
+def literal_consts(srcdir):
+    """(name, value-as-Fraction) for the tolerance literals the properties mention"""
+    out = []
+
+    def lits(fn):
+        return [n.value for n in ast.walk(fn) if isinstance(n, ast.Constant) and isinstance(n.value, (int, float)) and not isinstance(n.value, bool)]
+
+    poly = ast.parse(open(os.path.join(srcdir, "polygon.py")).read())
+    p2 = find_class(poly, "Point2D")
+    eq = find_func(p2, "__eq__")
+    fl = [v for v in lits(eq) if isinstance(v, float)]
+    out.append(("pointEqTol", Fraction(max(fl)) if fl else None))
+    out.append(("pointEqTolMin", Fraction(min(fl)) if fl else None))
+    init = find_func(p2, "__init__")
+    md = None
+    for n in ast.walk(init):
+        if isinstance(n, ast.Call) and getattr(n.func, "attr", None) == "limit_denominator":
+            a = n.args[0]
+            try:
+                md = Fraction(eval(compile(ast.Expression(a), "<lit>", "eval"), {"__builtins__": {}}))
+            except Exception:
+                md = None
+    out.append(("maxDenominator", md))
+    box = find_class(poly, "Box")
+    for st in box.body:
+        if isinstance(st, ast.Assign) and isinstance(st.value, ast.Constant):
+            out.append(("box" + st.targets[0].id.capitalize(), Fraction(st.value.value)))
+    jc = ast.parse(open(os.path.join(srcdir, "jordancurve.py")).read())
+    sp = find_func(find_class(jc, "JordanCurve"), "split")
+    fl = [v for v in lits(sp) if isinstance(v, float)]
+    out.append(("splitEndTol", Fraction(max(fl)) if fl else None))
+    out.append(("splitEndTolMin", Fraction(min(fl)) if fl else None))
+    cv = ast.parse(open(os.path.join(srcdir, "curve.py")).read())
+    pc = find_class(cv, "PlanarCurve")
+    fl = [v for v in lits(find_func(pc, "__contains__")) if isinstance(v, float)]
+    out.append(("onCurveTol", Fraction(fl[0]) if len(fl) == 1 else None))
+    bc = find_class(cv, "BezierCurve")
+    cl = find_func(bc, "clean")
+    d = cl.args.defaults
+    out.append(("cleanTol", Fraction(d[0].value) if d and isinstance(d[0], ast.Constant) and isinstance(d[0].value, float) else None))
+    return out
+
+
+def lean_rat(fr):
+    if fr is None:
+        return "none"
+    return f"some (({fr.numerator} : Rat) / ({fr.denominator} : Rat))"
+
+
+# ------------------------------------------------------------------ driver
+HEADER = "/- GENERATED by harness/translate.py from /repo/src/shapepy — do not edit; regenerated on every run -/\n"
+
+
 def regenerate(srcdir, gendir):
-    return True, "no translated units yet"
+    msgs = []
+    shape_src = os.path.join(srcdir, "shape.py")
+    tree = ast.parse(open(shape_src).read())
+    fname = "shape.py"
+    out = [HEADER, "import ShapeVerif.Model.Dispatch\n\nnamespace ShapeVerif.Gen\nopen ShapeVerif\n"]
+
+    def emit(name, ty, thunk):
+        try:
+            out.append(f"def {name} : {ty} := {thunk()}\n")
+        except Unsupported as e:
+            msgs.append(f"{name}: unsupported construct: {e}")
+            out.append(f"-- {name}: NOT TRANSLATED ({e})\n")
+        except Exception as e:  # malformed source etc.
+            msgs.append(f"{name}: translator error {e!r}")
+            out.append(f"-- {name}: NOT TRANSLATED ({e!r})\n")
+
+    base = find_class(tree, "BaseShape")
+    emit("baseMethods", "Methods", lambda: "{ " + ", ".join(
+        f"{k} := {simple_method(base, '__' + k + '__', fname)}" for k in ("neg", "add", "mul", "sub", "xor")) + " }")
+
+    def singleton_ops(clsname):
+        cls = find_class(tree, clsname)
+
+        def get(op):
+            t = simple_method(cls, f"__{op}__", fname)
+            if t is None:   # inherited from BaseShape
+                t = simple_method(base, f"__{op}__", fname)
+            if t is None:
+                raise Unsupported(f"{clsname}.__{op}__ not found")
+            return t
+        return "[" + ", ".join(f'("{op}", {get(op)})' for op in ("or", "and", "sub", "xor", "invert", "neg", "add", "mul")) + "]"
+
+    emit("emptyOps", "List (String × Term)", lambda: singleton_ops("EmptyShape"))
+    emit("wholeOps", "List (String × Term)", lambda: singleton_ops("WholeShape"))
+    defined = find_class(tree, "DefinedShape")
+    emit("definedOr", "Chain", lambda: chain(defined, "__or__", fname))
+    emit("definedAnd", "Chain", lambda: chain(defined, "__and__", fname))
+    simple = find_class(tree, "SimpleShape")
+    emit("simpleTable (ccw boundary : Bool) (w2 : Int)", "Bool", lambda: simple_table(simple, fname))
+    emit("connectedQuant", "Quant", lambda: quant_loop(find_class(tree, "ConnectedShape"), fname))
+    emit("disjointQuant", "Quant", lambda: quant_loop(find_class(tree, "DisjointShape"), fname))
+    out.append("\nend ShapeVerif.Gen\n")
+    ch1 = write_if_changed(os.path.join(gendir, "Dispatch.lean"), "".join(out))
+
+    # plot + consts
+    out2 = [HEADER, "import ShapeVerif.Model.Plot\n\nnamespace ShapeVerif.Gen\nopen ShapeVerif\n"]
+    try:
+        ptree = ast.parse(open(os.path.join(srcdir, "plot.py")).read())
+        tbl = patch_table(ptree, "plot.py")
+        out2.append("/-- degree ↦ (index of the first control point used, path code, number of codes, number of vertices) -/\n")
+        out2.append("def patchTable : Nat → Option (Nat × PCode × Nat × Nat)\n" + tbl + "\n")
+    except Unsupported as e:
+        msgs.append(f"patchTable: unsupported construct: {e}")
+        out2.append(f"-- patchTable: NOT TRANSLATED ({e})\n")
+    except Exception as e:
+        msgs.append(f"patchTable: translator error {e!r}")
+        out2.append(f"-- patchTable: NOT TRANSLATED ({e!r})\n")
+    try:
+        for name, val in literal_consts(srcdir):
+            out2.append(f"def {name} : Option Rat := {lean_rat(val)}\n")
+    except Exception as e:
+        msgs.append(f"consts: translator error {e!r}")
+        out2.append(f"-- consts: NOT TRANSLATED ({e!r})\n")
+    out2.append("\nend ShapeVerif.Gen\n")
+    ch2 = write_if_changed(os.path.join(gendir, "Tables.lean"), "".join(out2))
+    if msgs:
+        return False, "; ".join(msgs)
+    return True, f"translated 10 units from shape.py, plot.py, polygon.py, jordancurve.py, curve.py (changed: {ch1 or ch2})"
